@@ -183,7 +183,11 @@ FAILERS = {
     "spread_error": "SOLUTION_SPREAD\n -units mg/l\nNumber\tCa\tZz\n\tmg/l\tmg/l\n1\t10\t3\nEND\n",
     "missing_rate": "SOLUTION 1\n Na 1\n Cl 1\nKINETICS 1\n nosuchrate\n -m0 1\n -steps 10\nEND\n",
     "undefined_solution": "USE solution 99\nREACTION 1\n NaCl 1\n 1 mmol\nEND\n",
+    # a failing *load*: a database text that defines extra phases, a species and a rate and then stops on a syntax error (see _script)
+    "bad_database_string": None,
 }
+BAD_DB_TAIL = ("PHASES\nSeedite\n NaCl = Na+ + Cl-\n log_k 1.3\nSOLUTION_SPECIES\nNa+ + Cl- = NaCl\n log_k -0.7\nRATES\n seedrate\n-start\n10 SAVE 1e-7*TIME\n-end\n"
+               "PHASES\nSeedbad\n KCl = K+ + Cl-\n log_k not_a_number\n")
 
 # ------------------------------------------------------------------ probe battery (works on every ion-association/pitzer database: Na, Cl, Ca, C, K, S)
 PROBES = [
@@ -275,7 +279,15 @@ def _script(ctx, case, with_history):
             s.run("a", p)
             if case["second_db"] and i == len(pieces) // 2:
                 s.raw("loaddb a " + os.path.join(ctx.db, case["second_db"]))
-        if case["fail"]:
+        if case["fail"] == "bad_database_string":
+            s.raw("tag failing")
+            with open(os.path.join(ctx.db, "phreeqc.dat"), encoding="latin-1") as f:
+                text = f.read()
+            # the reader stops at the first END of the database text: the extra definitions go in front of it
+            cut = re.search(r"(?m)^END[ \t]*\r?$", text)
+            text = (text[:cut.start()] + BAD_DB_TAIL + text[cut.start():]) if cut else text + BAD_DB_TAIL
+            s.raw("loaddbstr a " + s.text(text))
+        elif case["fail"]:
             s.raw("tag failing")
             s.run("a", FAILERS[case["fail"]])
     s.raw("tag load")
